@@ -35,9 +35,10 @@ type vrScenario struct {
 	sbiFails   bool
 	modifyFail string // "", intended, config
 	// extended scenarios
-	timeout      time.Duration // rollback timeout of the transaction (default one hour)
-	existingPrio int32         // != 0: the intent already exists in the intended store with this priority
-	newPrio      int32         // priority of the intent in the transaction (default 10)
+	timeout        time.Duration // rollback timeout of the transaction (default one hour)
+	replaceContent string        // content of the replace intent (default valid)
+	existingPrio   int32         // != 0: the intent already exists in the intended store with this priority
+	newPrio        int32         // priority of the intent in the transaction (default 10)
 }
 
 var vrTraceMu sync.Mutex
@@ -140,7 +141,11 @@ func vrRunLive(t *testing.T, sc vrScenario) (tracep *[]string, rsp *sdcpb.Transa
 	}
 	var replace *types.TransactionIntent
 	if sc.replace {
-		replace = mk("replace", 10, "valid")
+		rc := sc.replaceContent
+		if rc == "" {
+			rc = "valid"
+		}
+		replace = mk("replace", 10, rc)
 	}
 	rsp, err = d.TransactionSet(ctx, "trans1", []*types.TransactionIntent{mk("owner1", prio, sc.content)}, replace, timeout, sc.dryRun)
 	return
@@ -247,6 +252,26 @@ func TestVerifReplayTransactionSet(t *testing.T) {
 			}
 		}
 	}
+	// C03: a replace intent that does not validate (here: a finding that is not attributed to the replace owner) is
+	// surfaced and has no effect, dry run or not
+	for _, dry := range []bool{false, true} {
+		n++
+		sc := vrScenario{content: "valid", replace: true, replaceContent: "missing-mandatory", dryRun: dry}
+		trace, rsp, err, _ := vrRun(t, sc)
+		reported := false
+		for _, ir := range rsp.GetIntents() {
+			if len(ir.GetErrors()) > 0 {
+				reported = true
+			}
+		}
+		input := fmt.Sprintf("%s,replaceIntentContent=list entry without its mandatory leaf err=%v reportedIntentErrors=%v effects=%v", sc, err, reported, trace)
+		if (err == nil && !reported) || len(trace) != 0 {
+			for _, fn := range []string{fnTS, "(*datastore.Datastore).replaceIntent"} {
+				fmt.Printf("REPLAY-FAIL fn=%s clause=invalid_replace_is_error_without_effect input=%s why=an invalid replace intent is accepted or has effects\n", fn, input)
+			}
+		}
+	}
+	fmt.Printf("REPLAY-CASES fn=%s n=%d\n", "(*datastore.Datastore).replaceIntent", 2)
 	// C07: a transaction that failed leaves no armed rollback timer behind. The failing run uses a 40 ms rollback timeout;
 	// an orphaned timer shows as further effects after the error was returned.
 	for _, mf := range []string{"intended", "config"} {
